@@ -10,6 +10,9 @@
 #define KOPS 3
 #endif
 #define MAXT (2 * NE + 2)
+#ifndef OPTS_LO
+#define OPTS_LO 0
+#endif
 
 static h_tables_t T;
 
@@ -95,7 +98,7 @@ main_c06(void)
         return 0;
     }
     nt = (int) tsk_treeseq_get_num_trees(&ts);
-    opts = sym_choice("opts", 0, 1) ? TSK_SAMPLE_LISTS : 0;
+    opts = sym_choice("opts", OPTS_LO, 1) ? TSK_SAMPLE_LISTS : 0;
     ret = tsk_tree_init(&tree, &ts, opts);
     sym_assume(ret == 0);
     ret = tsk_tree_init(&ref, &ts, opts);
@@ -108,6 +111,12 @@ main_c06(void)
     }
     for (k = 0; k < KOPS; k++) {
         op = sym_choice(sym_nm(nm, "op", k), 0, 6);
+#ifdef FIRST_OP_MOVES
+        /* from the null state next/prev are first/last and clear is a no-op: skip those as the first operation */
+        if (k == 0 && (op == 2 || op == 3 || op == 6)) {
+            sym_assume(0);
+        }
+#endif
         switch (op) {
             case 0:
                 ret = tsk_tree_first(&tree);
